@@ -143,6 +143,31 @@ def families(prop, tier):
         fams.append(dict(name='staleannounce-gdict', mode='plans', plans=[plan, plan[:-1] + ['relay:T1']],
                          cfg=dict(backend='gdict', gate_store=True, announce=True, nmsgs=1, nrcpt=1, backoff=[0, 3, None],
                                   outcomes=['ok', 'T1'])))
+    if prop in ('C12',):
+        # a storage that announces its own writes, an envelope split in two, failing first attempts: a message announced between
+        # its write and the return of enqueue() is attempted once, and retried at the time the backoff chose
+        sp_ = [['enq', 'write', 'announce', 'get', 'write', 'relay:T1', 'relay:T1', 'relay:T1'],
+               ['enq', 'write', 'announce', 'write', 'get', 'relay:T1', 'relay:T1', 'relay:T1'],
+               ['enq', 'write', 'write', 'announce', 'get', 'relay:T1', 'relay:T1', 'relay:T1'],
+               ['enq', 'write', 'announce', 'get', 'relay:T1', 'write', 'relay:T1', 'relay:T1']]
+        fams.append(dict(name='splitretry-gdict', mode='plans', plans=sp_,
+                         cfg=dict(backend='gdict', gate_store=True, gate_ops=['write', 'get'], announce=True, split=True, nmsgs=1, nrcpt=2,
+                                  backoff=[5, 9, None], outcomes=['ok', 'T1'])))
+    if prop in ('C12', 'C03'):
+        # the start-up listing of a backend whose load() yields between entries (disk, redis), over messages left by an earlier
+        # incarnation, while announcements arrive: what is announced, attempted and put back with its retry time before the
+        # listing reaches it must not be scheduled a second time with the time the listing read
+        lz = ['load', 'announce#2', 'get', 'relay:T1', 'increment_attempts', 'set_timestamp', 'load_next', 'load_next']
+        lplans = [lz, ['load', 'load_next', 'announce#2', 'get#2', 'relay:T1', 'increment_attempts', 'set_timestamp', 'load_next'],
+                  ['load', 'announce', 'get', 'relay:T1', 'increment_attempts', 'set_timestamp', 'load_next', 'load_next'],
+                  ['load', 'announce#2', 'get', 'load_next', 'relay:T1', 'increment_attempts', 'set_timestamp', 'load_next'],
+                  ['load', 'announce#2', 'get', 'relay:T1', 'increment_attempts', 'load_next', 'load_next', 'set_timestamp']]
+        fams.append(dict(name='lazyload-gdict', mode='plans', plans=lplans,
+                         cfg=dict(backend='gdict', gate_store=True, announce=True, preload=2, lazy_load=True, release_startup=False,
+                                  nmsgs=0, nrcpt=1, backoff=[5, 5, None], outcomes=['ok', 'T1'])))
+        fams.append(dict(name='lazyloaddfs-gdict', mode='dfs', depth=9 if q else 11, budget=500 if q else 30000,
+                         cfg=dict(backend='gdict', gate_store=True, announce=True, preload=2, lazy_load=True, release_startup=False,
+                                  nmsgs=0, nrcpt=1, backoff=[5, None], outcomes=['ok', 'T1'])))
     if prop in ('C12', 'C03'):
         # relay that answers at once (no yield inside the attempt): completions overtake the scheduler's dispatch loop
         for sp in (1, 2):
